@@ -482,10 +482,17 @@ func (t *tr) stmts(list []ast.Stmt, depth int, k func(depth int) string) string 
 		switch s.Tok {
 		case token.DEFINE:
 			if r.c != nil {
-				if r.t == "untyped" {
-					panic(fail("untyped constant in := (%s)", t.src(s)))
+				if r.t == "untyped" { // default type of the constant
+					switch r.c.Kind() {
+					case constant.Bool:
+						r.t = "bool"
+					case constant.Int:
+						r.t = "int"
+					default:
+						panic(fail("unsupported untyped constant in := (%s)", t.src(s)))
+					}
 				}
-				rhs = literal(r.c, r.t)
+				rhs = coerce(r, r.t)
 			} else {
 				rhs = r.lean
 			}
